@@ -293,10 +293,6 @@ def run(ctx, chk):
             chk.check(R6, r == want, "ext-set-resolve(%s)" % known, "resolve yields %s, expected %s" % (r, want), raw.where("resolve", "ExtInstSetTracker"))
         except Anchor as ex:
             chk.bad(R6, "ext-set-resolve(%s)" % known, "not analysable: %s" % ex, raw.where("resolve", "ExtInstSetTracker"))
-    uses = [n for n in walk(ctx.rspirv.module("rspirv::binary::tracker")["items"]) if n[0] == "use"]
-    mod_uses = [i["tree"] for i in ctx.rspirv.items("rspirv::binary::tracker", "use")]
-    chk.check(R6, any("GlslStd450InstructionTable as GGlInstTable" in u for u in mod_uses) and any("OpenCLStd100InstructionTable as GClInstTable" in u for u in mod_uses),
-              "ext-table-aliases", "aliases: %s" % mod_uses, "rspirv/binary/tracker.rs")
 
     R7 = chk.rule("S6-HEADER", "header comment: `; SPIR-V`, `; Version: major.minor`, `; Generator: <tool name>`, `; Bound: n`; the tool name "
                   "table equals the registered generator ids 0-15 (spir-v.xml), `Unknown` otherwise; tool = generator >> 16")
